@@ -370,6 +370,11 @@ Section SimStmt.
     - destruct EG as (w & EG & _). unfold has_key. rewrite EG. reflexivity.
     - unfold has_key. rewrite EG. destruct (u_export_name_ok u (ru_intern u nm)); cbn [negb]; [|reflexivity].
       destruct (rel_live u K _ _ _ _ _ R V) as (nd & G). unfold update_node. rewrite G.
+      (* the exported item is never a type definition here: [export] does not rename *)
+      assert (ER : exports_renamed (rs_g st) item = exports (rs_g st)).
+      { unfold exports_renamed. rewrite G. destruct (r_node _ _ _ _ _ R item nd v G V) as (_ & _ & ND & _).
+        destruct (nk nd); auto. now contradiction ND. }
+      rewrite ER.
       exists vm. split; [apply prefix_refl|]. split; [|split; [split; cbn; apply prefix_refl|exact I]].
       apply (rel_update st env vm item nd
                {| nk := nk nd; npkg := npkg nd; nitem := nitem nd; nname := nname nd; nexport := Some (ru_intern u nm) |});
